@@ -316,11 +316,82 @@ def history_array_rules(prog, ctx, rule):
                      key="merge-flag")
 
 
+ENTRY_OUT = {"econf_readFileWithCallback": "key_file", "econf_readFile": "key_file",
+             "econf_readConfigWithCallback": "key_file", "econf_readConfig": "key_file",
+             "econf_readDirsWithCallback": "result", "econf_readDirs": "result",
+             "econf_readDirsHistoryWithCallback": "key_files", "econf_readDirsHistory": "key_files"}
+
+
+def nothing_on_failure(prog, ctx, rule, names=None):
+    """On every failure exit of a read entry point the out-pointer is NULL or what the caller put there - never an object the
+    call itself created (the caller, told that the read failed, has no reason to release anything)."""
+    n = 0
+    for name, outp in ENTRY_OUT.items():
+        if names is not None and name not in names:
+            continue
+        if not prog.has_fn(name):
+            ctx.inconclusive(rule, "%s hands back nothing on failure" % name, "", "entry point vanished")
+            continue
+        f = prog.fn(name)
+        if outp not in f.param_names():
+            ctx.inconclusive(rule, "%s hands back nothing on failure" % name, f.where, "out-parameter `%s` vanished" % outp)
+            continue
+        a = analyse(prog, name)
+        ctx.touch(f)
+        if a.truncated:
+            ctx.inconclusive(rule, "%s hands back nothing on failure" % name, f.where, "state space truncated")
+            continue
+        # a pure delegation has no states of its own
+        dele = [c for c in f.calls(tuple(ENTRY_OUT)) if c.up() is not None and c.up().k == "ReturnStmt"]
+        if dele and len(list(f.returns())) == 1 and query.refs_param(dele[0].call_args()[0], outp):
+            ctx.ok(rule, "%s hands back nothing on failure" % name, dele[0].where, "delegates to %s with its own out-parameter" % dele[0].j["callee"])
+            n += 1
+            continue
+        bad = None
+        unknown = None
+        fails = 0
+        for ret, st in a.exit_states:
+            const = query.returned_constant(ret) if ret is not None else None
+            if const == "ECONF_NOMEM":
+                continue
+            if const in ("ECONF_SUCCESS", 0):
+                continue
+            if const is None:
+                v = render(ret.children[0]) if ret is not None and ret.children else None
+                fct = st.facts.get(v) or st.facts.get("$ret")
+                if fct == "Z":
+                    continue
+                if fct is None:
+                    unknown = ret
+                    continue
+                if fct in ("ECONF_NOMEM",):
+                    continue
+            fails += 1
+            obj = st.env.get("*" + outp)
+            if obj not in (None, NULL, UNK) and st.heap.get(obj) == "O" and not str(obj).startswith("caller:"):
+                bad = (ret, st, obj)
+        n += 1
+        inst = "%s hands back nothing on failure" % name
+        if bad is not None:
+            ret, st, obj = bad
+            ctx.fail(rule, inst, ret.where,
+                     "a failing read returns with *%s pointing to an object this call created itself (%s): the caller is told the read failed and is "
+                     "still handed a configuration object it has to release" % (outp, a.describe(obj) if hasattr(a, "describe") else obj),
+                     key="object-on-failure:%s" % name, path=list(st.trail)[-6:])
+        elif unknown is not None and not fails:
+            ctx.inconclusive(rule, inst, unknown.where, "verdict of the returned value not known to the typestate")
+        else:
+            ctx.ok(rule, inst, f.where, "%d failure exit states: *%s is NULL or the caller's own object" % (fails, outp))
+    return n
+
+
 def c06_g5(prog, ctx):
     for name in ("read_file_with_callback", "econf_readFileWithCallback", "check_conf_dir", "readConfigHistoryWithCallback",
                  "readConfigWithCallback", "econf_readConfigWithCallback"):
         report(ctx, "G5", name, analyse(prog, name))
     rederive_gate_summary(prog, ctx, "G5")
+    nothing_on_failure(prog, ctx, "G5", names=("econf_readFileWithCallback", "econf_readConfigWithCallback", "econf_readDirsWithCallback",
+                                                 "econf_readDirsHistoryWithCallback"))
     # the merge is control dependent on success of the history
     f = prog.fn("readConfigWithCallback")
     cfg = f.cfg
@@ -337,6 +408,7 @@ def c13_e3(prog, ctx):
     for name in ("read_file_with_callback", "econf_readFileWithCallback", "readConfigHistoryWithCallback"):
         report(ctx, "E3", name, analyse(prog, name))
     rederive_gate_summary(prog, ctx, "E3")
+    nothing_on_failure(prog, ctx, "E3")
 
 
 def c15_o4(prog, ctx):
